@@ -26,7 +26,7 @@ func vhSameSeq(got, want []uint64, what string) {
 	}
 }
 
-//vh:prop C13
+//vh:prop C13 C03
 //vh:param leaves 2 3
 //vh:param perleaf 3 4
 func VH_C13_ArrayIterators() {
@@ -91,12 +91,14 @@ func VH_C13_ArrayIterators() {
 		vhCheckArray(a, addr, model, "after mutating iteration")
 	case 6: // bulk pop: reverse order, container emptied, auxiliary slabs released
 		var got []uint64
+		popSnap := vhSnapshotAll(storage)
 		err := a.PopIterate(func(s Storable) {
 			v, _ := s.StoredValue(storage)
 			got = append(got, vhTagOf(v))
 			vhDispose(storage, s)
 		})
 		vhAssert(err == nil, "pop: no error")
+		vhCheckDirtyMarks(storage, popSnap, "pop: dirty marks")
 		rev := make([]uint64, n)
 		for i := range model {
 			rev[n-1-i] = model[i]
@@ -133,7 +135,7 @@ func vhCollectMapElems(what string, run func(fn MapElementIterationFunc) error, 
 	return
 }
 
-//vh:prop C13
+//vh:prop C13 C03
 //vh:param leaves 2 2
 //vh:param perleaf 3 4
 func VH_C13_MapIterators() {
@@ -210,6 +212,7 @@ func VH_C13_MapIterators() {
 		vhCheckMap(m, addr, model, "after mutating iteration")
 	case 7: // bulk pop: reverse order, emptied
 		var got []uint64
+		popSnap := vhSnapshotAll(storage)
 		err := m.PopIterate(func(ks, vs Storable) {
 			id, _ := vhKeyID(ks, storage)
 			got = append(got, id)
@@ -217,6 +220,7 @@ func VH_C13_MapIterators() {
 			vhDispose(storage, vs)
 		})
 		vhAssert(err == nil, "pop: no error")
+		vhCheckDirtyMarks(storage, popSnap, "pop: dirty marks")
 		rev := make([]uint64, n)
 		for i := range wantK {
 			rev[n-1-i] = wantK[i]
